@@ -2,7 +2,7 @@ import N0Verif.Proto
 import N0Verif.Val
 import N0Verif.Model.Esc
 /-! driver operations of the delimited-text model (C17): `esc.split`, `esc.spec`, `esc.dlist`,
-`esc.kv`, `esc.ddict`, `esc.ser`, `esc.unesc`, `esc.rt` -/
+`esc.kv`, `esc.ddict`, `esc.ser`, `esc.unesc`, `esc.rt`, `esc.rtf`, `esc.ddu` -/
 namespace N0.Drv.Esc
 open N0 N0.Proto N0.Esc
 
@@ -98,8 +98,35 @@ def handle (toks : List String) : Option String :=
         | .ok ps =>
           match unescapeDict ps with
           | .error e => some (showU e)
-          | .ok r => some ("ok " ++ showPairs' r)
+          | .ok r => some ("ok " ++ showPairs r)
     | _, _, _ => some "bad-op"
+  -- `unescape(deserialize_dict(serialize_dict(v, d, eq, ge, gn), d, equal_tag=eq, default_value=dv))`
+  | "esc.rtf" :: d :: eq :: ge :: gn :: dv :: v =>
+    match decStr d, decStr eq, parseBool ge, parseBool gn, optStr dv, readVal v with
+    | some d, some eq, some ge, some gn, some dv, some (v, []) =>
+      match ser ⟨d, eq, ge, gn, 0, 0⟩ 0 v with
+      | .error .Unsupported => some "unsupported"
+      | .error e => some (showErr e)
+      | .ok none => some "unsupported"
+      | .ok (some text) =>
+        match deserializeDict text d eq false none dv with
+        | .error e => some (showErr e)
+        | .ok ps =>
+          match unescapeDict ps with
+          | .error e => some (showU e)
+          | .ok r => some ("ok " ++ showPairs r)
+    | _, _, _, _, _, _ => some "bad-op"
+  -- `unescape(deserialize_dict(s, d, parse_empty=pe, equal_tag=eq, default_key=dk, default_value=dv))`
+  | ["esc.ddu", s, d, eq, pe, dk, dv] =>
+    match decStr s, decStr d, decStr eq, parseBool pe, optStr dk, optStr dv with
+    | some s, some d, some eq, some pe, some dk, some dv =>
+      match deserializeDict s d eq pe dk dv with
+      | .ok ps =>
+        match unescapeDict ps with
+        | .error e => some (showU e)
+        | .ok r => some ("ok " ++ showPairs r)
+      | .error e => some (showErr e)
+    | _, _, _, _, _, _ => some "bad-op"
   | _ => none
 
 end N0.Drv.Esc
